@@ -532,6 +532,13 @@ def run(ctx):
     for rng in coarse:
         # the coarse steps are the asset's own: counted from the start of its window, wherever the horizon begins
         sk, ek = au.kwarg(rng.value, "start"), au.kwarg(rng.value, "end")
+        nk = au.kwarg(rng.value, "normalize")
+        if nk is not None and not (isinstance(nk, ast.Constant) and nk.value is False):
+            ctx.ob("C19.i", init, "coarse boundaries lie inside the window", False,
+                   "the boundaries are generated with normalize=%s: the first boundary is moved back to midnight of the start day, i.e. *before* the window "
+                   "start, and nothing trims it (the repair only prepends the start when the first boundary lies after it) - a daily sub-grid of a "
+                   "window that starts at 06:00 collects the fine steps from midnight on: the restricted grid contains a point outside the window"
+                   % au.short(nk, 40), node=rng, key="coarse boundaries are not normalised to midnight")
         dep = [x for k0 in (sk, ek) if k0 is not None for x in au.walk_local(k0) if isinstance(x, ast.Name) and x.id == ref]
         ctx.ob("C19.i", init, "coarse boundaries are counted from the window start", au.U(sk) == "self.start" if not dep else False,
                "the boundaries of the coarse intervals are generated from %s .. %s, which depends on the reference grid: the coarse steps of an asset "
